@@ -18,23 +18,26 @@ sys.path.insert(0, os.path.dirname(os.path.dirname(os.path.abspath(__file__))))
 from translate import effects as teff  # noqa: E402
 
 CLAIM = {
-    "text": "Machine-checked (Coq) over an abstract program of pipeflow regenerated from the Python sources on every "
-            "run: (1) no configuration of a call (re)binds a user key, and no function reachable from pipeflow writes "
-            "through an alias of user data; (2) a verified def-use scan accepts every configuration: each internal key "
-            "read was written earlier in the same call, except _internal_data under reuse_internal_data and hyd_flag "
-            "in mode heat; hence (3) after any finite history of calls / failing calls / edits the outcome and all "
-            "produced results of a call are those of the same call on a net carrying only the description, "
-            "(4) repetition is identical, (5) mode heat depends on description, hyd_flag and the given solution only "
-            "and runs the same thermal-stage program as mode sequential. Tied to the running code by a bit-exact "
-            "history differential on generated nets.",
-    "note": "All theorems closed under the global context (no axioms). The effect scan is syntactic (aliasing inside "
-            "pandas/numpy is covered by the differential only); recursion of rerun_* is modelled as a bounded loop; "
-            "try/except blocks are part of the generated programs (handler events precede the re-raise); implicit "
-            "exceptions are modelled inside the Newton loop at the points where the cache key changes. All 12 "
-            "configurations pass the def-use scan at full strength; no_cache_left_behind covers return, stage failure "
-            "and every raise site inside the Newton loop. transient=True: the carried keys (_pit, _old_pit, converged; "
-            "_active_pit in bidirectional) are computed and pinned by transient_carried_keys. Absent user_pf_options "
-            "== {} (net.get default).",
+    "text": "PROVED (Coq, 14 theorems, no axioms) over abstract programs of pipeflow regenerated from the Python sources on "
+            "every run (12 configurations mode x only_update x reuse, 4 transient ones; try/except, raise sites, component "
+            "classes, implicit exceptions in the Newton loop are part of the programs): (1) no call (returning or raising) "
+            "rebinds a user key; no reachable function writes through an alias of user data; no module keeps state outside "
+            "the net (memoisation, mutated globals/defaults); (2) soundness of a def-use scan (noninterference) and its "
+            "acceptance for ALL configurations with exactly the named exceptions (_internal_data under reuse, hyd_flag in mode "
+            "heat); hence (3) after any finite history of calls / failing calls / edits a call equals the same call on a net "
+            "carrying only the description; (4) repetition identical; (5) mode heat depends on description, hyd_flag, sol_vec "
+            "only, runs the same thermal-stage program as sequential and hands over exactly PINIT / MDOTINIT; (6) a call "
+            "without reuse leaves no cache of its own at return, stage failure, or any raise (explicit/implicit) in the Newton "
+            "loop, and a filled cache only at four listed raise sites between the loop and the clean-up; (7) transient mode "
+            "carries exactly _pit, _old_pit, converged (+_active_pit in bidirectional). MONITORED (bit-identical differential, "
+            "not proved): generated histories incl. fluid / std-type edits, leftover probe, description-object probe, "
+            "heat(sol_vec) vs sequential (rtol 1e-9), transient steps vs fresh net with the carried keys, empty cache == absent.",
+    "note": "All theorems closed under the global context. Trusted: the translator effects.py (syntactic alias / effect rules, "
+            "allow-lists of pure / mutating methods, MRO resolution), key-level granularity (sub-structure of internal keys not "
+            "separated), rerun_* recursion as bounded loop, implicit exceptions modelled only inside the Newton loop at the "
+            "points where the cache key changes, 'empty dict == absent key' (monitored), absent user_pf_options == {}. The "
+            "numerical equality heat-from-stored == sequential is a monitor; the theorem is program equality of the thermal "
+            "stage + the hand-over columns.",
     "technique": "Coq proof over generated effect programs (T-tie) + bit-identical history differential",
     "design": "DESIGN.md 4/C12 + design_notes/C12.md",
 }
